@@ -15,7 +15,9 @@ use crate::trace::{Op, Outcome, Trace, Violation};
 use anstream::adapter::strip_bytes;
 use std::io::{self, Write};
 
-pub const SURFACES: [&str; 9] = [
+pub const SURFACES: [&str; 11] = [
+    "strip_mutdyn_send_sync",
+    "auto_never_mutdyn_send",
     "strip_box_send_sync",
     "strip_mutdyn_send",
     "auto_never_box_send_sync",
@@ -461,6 +463,18 @@ pub fn execute(t: &Trace, stats: &mut Stats, record: bool) -> Outcome {
             let mut w = w;
             let inner: &mut (dyn Write + Send) = &mut w;
             let mut s = anstream::StripStream::new(inner);
+            client.run(&mut s)
+        }
+        "strip_mutdyn_send_sync" => {
+            let mut w = w;
+            let inner: &mut (dyn Write + Send + Sync) = &mut w;
+            let mut s = anstream::StripStream::new(inner);
+            client.run(&mut s)
+        }
+        "auto_never_mutdyn_send" => {
+            let mut w = w;
+            let inner: &mut (dyn Write + Send) = &mut w;
+            let mut s = anstream::AutoStream::never(inner);
             client.run(&mut s)
         }
         "auto_never_box_send_sync" => {
